@@ -233,9 +233,11 @@ def main(argv=None):
              len(m['classes']), time.time() - t0))
     for k, n in sorted(viol_mech.items()):
         print('  observed mechanism %s x%d' % (k, n))
-    for key, n in sorted(hit.items()):
+    for key in sorted(open_keys):
+        # every listed open finding of this property, with the number of witnesses met in this run (rare mechanisms are
+        # not met by every seed or tier; the listed witness in known_findings.json reproduces them)
         print('KNOWN-FINDING: property=%s %s (%s; %d witnesses this run)'
-              % (prop, key, open_keys[key]['what'], n))
+              % (prop, key, open_keys[key]['what'], hit.get(key, 0)))
     for v, p in replay_paths:
         print('VIOLATION property=%s replay=%s mechanism=%s' % (prop, p, v['mechanism']))
         print('   detail: %s' % json.dumps(v['detail'])[:600])
